@@ -350,6 +350,19 @@ def several_objects(ctx, fx, case):
         r = CliRunner().invoke(identify, ["--verify", want_f, f_, f_])
     if classify(r) != "usageError":
         ctx.fail(dict(case, objects=2), "verification of several objects (documented as unsupported) is not a usage error", "missing-usage-error:several-objects", {"class": classify(r)})
+    # an exclusion applies to every OBJECT of the command, not only to the first
+    pats = [os.fsdecode(p) for p in fx.patterns]
+    try:
+        "".join(pats).encode("utf-8")
+        want_dx = fx.expected_swhid("directory", True, "dir")
+        args = ["--no-filename"] + [a for p in pats for a in ("--exclude", p)] + [d_, d_, f_, d_]
+        with time_limit(120):
+            r = CliRunner().invoke(identify, args)
+        out = os.fsdecode(r.stdout_bytes)
+        if classify(r) != "exit0" or out.splitlines() != [want_dx, want_dx, want_f, want_dx]:
+            ctx.fail(dict(case, objects=4, exclude=True), "with --exclude, several OBJECT arguments are not all identified with the exclusion applied", "several-objects-exclude-wrong", {"output": out[:400], "want": [want_dx, want_dx, want_f, want_dx]})
+    except UnicodeEncodeError:
+        pass
     ctx.count("several-objects")
 
 
